@@ -168,6 +168,10 @@ def step_pick(a):
             if sorted(t.path_number for t in st._trajs) != sorted(pre["slots"]):
                 bad.append("pick changed the set of live paths")
             bad += _invariant(st, N, "post-pick")
+            # the probability matrix cached during this pick was computed BEFORE the picked ensembles were locked: it must not
+            # survive the pick (the next pick -- initial submission with several workers, or after a restart -- would draw from it)
+            if st._last_prob is not None and eff.get("prob_for") != (np.abs(np.asarray(st.state, dtype=float)).tolist(), [int(x) for x in st._locks]):
+                bad.append("cached probability matrix was computed for a different state than the current one (stale cache after pick: the next pick would use pre-lock probabilities)")
             # random streams (C07): job ordinal -> child key; ensembles -> grandchildren; never the scheduler's own key
             k = pre["nsp"]
             keys = [item["ens"]["rgen"].key for item in picked.values()]
